@@ -109,7 +109,7 @@ def _tree_form(ctx, case, spec):
         spec = {k: np.asarray(v)[old_of_new] for k, v in spec.items()}
         spec["pid"] = np.where(pid_old < 0, -1, new_of_old[np.maximum(pid_old, 0)]).astype(np.int32)
         ctx.count("tree_root_not_at_0")
-    tree = G.build(spec)
+    tree = G.build(spec, frozen_ok=True)
     before = {k: v.copy() for k, v in tree.ndata.items()}
     out = sort_tree(tree)
     ctx.count("tree_form_checked")
